@@ -255,6 +255,44 @@ def default_box(src: str):
     raise Unsupported("no minimize(...) call in LocalScipyMinimizer.__call__")
 
 
+def update_order(src: str) -> list[str]:
+    """the first lines of the three residual functions, as blocks in source order: "y0" (`if (y0 := settings.y0) is not
+    None: model.update_variables(y0)`), "pars" (`for p in settings.p_names: model.update_parameter(p, updates[p])`), "vars"
+    (`for v in settings.v_names: model.update_variable(v, updates[v])`); loop-variable names are free; all three functions must
+    agree; any other statement before the simulation refuses"""
+    tree = ast.parse(src)
+    orders = []
+    for name in ("steady_state_residual", "time_course_residual", "protocol_time_course_residual"):
+        fn = next((n for n in tree.body if isinstance(n, ast.FunctionDef) and n.name == name), None)
+        if fn is None:
+            raise Unsupported(f"{name} not found")
+        body = [s for s in fn.body if not (isinstance(s, ast.Expr) and isinstance(s.value, ast.Constant))]
+        if ast.unparse(body[0]) != "model = settings.model":
+            raise Unsupported(f"{name}: does not start with `model = settings.model`")
+        order = []
+        for st in body[1:]:
+            if isinstance(st, ast.If) and not st.orelse and ast.unparse(st.test) == "(y0 := settings.y0) is not None" \
+                    and [ast.unparse(x) for x in st.body] == ["model.update_variables(y0)"]:
+                order.append("y0")
+            elif isinstance(st, ast.For) and not st.orelse and isinstance(st.target, ast.Name) and len(st.body) == 1:
+                v = st.target.id
+                it, b = ast.unparse(st.iter), ast.unparse(st.body[0])
+                if it == "settings.p_names" and b == f"model.update_parameter({v}, updates[{v}])":
+                    order.append("pars")
+                elif it == "settings.v_names" and b == f"model.update_variable({v}, updates[{v}])":
+                    order.append("vars")
+                else:
+                    raise Unsupported(f"{name}: loop `{ast.unparse(st)[:80]}`")
+            else:
+                break  # the simulation starts here
+        if sorted(order) != ["pars", "vars", "y0"]:
+            raise Unsupported(f"{name}: update blocks {order}")
+        orders.append(order)
+    if orders[0] != orders[1] or orders[0] != orders[2]:
+        raise Unsupported(f"the residual functions update the model in different orders: {orders}")
+    return orders[0]
+
+
 def global_box(src: str, lo, hi) -> bool:
     """GlobalScipyMinimizer.__call__: `box = [bounds.get(name, (lo, hi)) for name in p0]` with the local minimiser's default
     box, handed to differential_evolution / shgo / dual_annealing / direct -> True; the `bounds` dict handed on as it
@@ -274,10 +312,11 @@ def global_box(src: str, lo, hi) -> bool:
         raise Unsupported(f"global methods found: {sorted(passed)}")
     if set(passed.values()) == {"bounds"}:
         return False
-    if set(passed.values()) != {"box"}:
+    if len(set(passed.values())) != 1:
         raise Unsupported(f"global methods get {passed}")
+    (local,) = set(passed.values())  # whatever the local list of boxes is called
     for st in call.body:
-        if isinstance(st, ast.Assign) and ast.unparse(st.targets[0]) == "box":
+        if isinstance(st, ast.Assign) and len(st.targets) == 1 and ast.unparse(st.targets[0]) == local:
             b = st.value
             if (isinstance(b, ast.ListComp) and len(b.generators) == 1 and not b.generators[0].ifs
                     and ast.unparse(b.generators[0].iter) == "p0" and isinstance(b.generators[0].target, ast.Name)
@@ -287,8 +326,8 @@ def global_box(src: str, lo, hi) -> bool:
                 if (Fraction(repr(float(glo))), Fraction(repr(float(ghi)))) != (lo, hi):
                     raise Unsupported("the global minimiser's default box differs from the local one's")
                 return True
-            raise Unsupported("box = " + ast.unparse(b))
-    raise Unsupported("no `box = ...` in GlobalScipyMinimizer.__call__")
+            raise Unsupported(f"{local} = " + ast.unparse(b))
+    raise Unsupported(f"no `{local} = ...` in GlobalScipyMinimizer.__call__")
 
 
 def render(repo: Path) -> str:
@@ -305,6 +344,7 @@ def render(repo: Path) -> str:
     defaults = check_routines((repo / "src/mxlpy/fit/routines.py").read_text())
     lo, hi = default_box((repo / "src/mxlpy/minimizers/_scipy.py").read_text())
     gbox = global_box((repo / "src/mxlpy/minimizers/_scipy.py").read_text(), lo, hi)
+    uorder = update_order((repo / "src/mxlpy/fit/routines.py").read_text())
     shipped = ", ".join(f'"{n}"' for n in sorted(names))
     rat_ok = [n for n in names if set(needs[n]) <= {"HasAbs"}]
     rat_cases = "\n".join(f'  | "{n}" => some ({n} d p)' for n in sorted(rat_ok))
@@ -330,6 +370,8 @@ def render(repo: Path) -> str:
         f"def fitSetsBest : Bool := {'true' if defaults['sets_best'] else 'false'}\n\n"
         "/-- the box `LocalScipyMinimizer` applies to a parameter without explicit bounds -/\n"
         f"def defaultBox : Rat × Rat := (({lo.numerator} : Rat) / {lo.denominator}, ({hi.numerator} : Rat) / {hi.denominator})\n\n"
+        "/-- the order in which every residual function writes into the model before it simulates -/\n"
+        f"def updateOrder : List String := [{', '.join(chr(34) + x + chr(34) for x in uorder)}]\n\n"
         "/-- GlobalScipyMinimizer hands scipy one box per entry of p0 (the caller's, or the default box) -/\n"
         f"def globalUsesBox : Bool := {'true' if gbox else 'false'}\n\n"
         "/-- the losses that need no sqrt/log, evaluated at Rat by the driver -/\n"
@@ -360,6 +402,7 @@ def generate(repo: Path, outdir: Path) -> None:
                               "def scaleGuard : Bool := false\n"
                               "def fitSetsBest : Bool := false\n"
                               "def globalUsesBox : Bool := false\n"
+                              "def updateOrder : List String := []\n"
                               "def settingsLoss {α : Type} [Sub α] [Div α] [LT α] [DecidableLT α] [NatCast α]\n"
                               "    (lossFn : List α → List α → α) (standardScale : Bool) (mean scale : α) (data prediction : List α) : α :=\n"
                               "  scaledLoss false lossFn standardScale mean scale data prediction\n"
